@@ -375,6 +375,16 @@ def _module_state(chk: Check) -> List[Tuple[str, str, str]]:
                     f = freeze(e.func)
                     if isinstance(f, tuple) and f and f[0] == 'attr' and f[2] in MUTATORS:
                         tgt = f[1]
+                    elif isinstance(f, tuple) and f[:2] == ('ref', 'ext'):
+                        from .c13 import MUTATING_EXT
+                        for i_ in MUTATING_EXT.get(f[2], ()):      # heapq.heappush(REGISTRY, x), random.shuffle(TABLE), bisect.insort(...)
+                            if i_ < len(e.args):
+                                a_ = freeze(e.args[i_])
+                                r_ = a_
+                                while isinstance(r_, tuple) and r_ and r_[0] in ('attr', 'sub'):
+                                    r_ = r_[1]
+                                if isinstance(r_, tuple) and r_[:2] == ('ref', 'modvar'):
+                                    tgt = a_
                 if tgt is None:
                     continue
                 root = tgt
